@@ -16,7 +16,8 @@ RULE = ('Evaluation = one (plainly indexed frame, variant frame) pair run throug
         'integers or float32 where exact), each with and without an MSA that crops hits (label-based crop path). '
         'Non-trivial = >= 2 valid hits; distinct = hash of (rows, parameters, variant).')
 ASSUMPTIONS = ['dtype variants are used only where the conversion is exact']
-REQUIRED = VARIANTS + ['nonunique_labels_with_crop', 'with_msa', 'without_msa']
+# scenes: a third with the warn-only anomalies, a sixth with non-detections holding a placeholder height
+REQUIRED = VARIANTS + ['nonunique_labels_with_crop', 'nonunique_labels_with_type0_rows_holding_a_height', 'with_msa', 'without_msa']
 SIZES = {'quick': 80, 'thorough': 2000}
 
 
@@ -104,7 +105,14 @@ def make_variant(rng, df, name):
 def check(desc):
     rng = scenes.rng_for(desc['s'], NUM, desc['i'])
     i = desc['i']
-    sc = scenes.gen_scene(rng, maxrows=300, nce=int(rng.choice([1, 2, 3, 4])))
+    sc = scenes.gen_scene(rng, maxrows=300, nce=int(rng.choice([1, 2, 3, 4])), anomalies=(i % 3 == 2))
+    if i % 6 == 1:
+        # warn-only anomaly: non-detections that carry a (placeholder) height
+        rng_a = scenes.rng_for(desc['s'], NUM, desc['i'], 77)
+        for r in sc['rows']:
+            if r[3] == 0 and rng_a.uniform() < 0.5:
+                r[2] = float(rng_a.choice([0.0, 1500.0, float(rng_a.uniform(0, 5000))]))
+                sc['type0_with_height'] = True
     prm = scenes.gen_prms(rng, sc, msa=False, rich=(i % 3 == 0))
     hs = np.sort(scenes.heights_of(sc))
     with_msa = i % 2 == 0 and len(hs) > 0
@@ -145,6 +153,8 @@ def check(desc):
         tags.add(name)
         if name.startswith('idx_') and not var.index.is_unique and n_above:
             tags.add('nonunique_labels_with_crop')
+        if name.startswith('idx_') and not var.index.is_unique and sc.get('type0_with_height') and nvalid >= 2:
+            tags.add('nonunique_labels_with_type0_rows_holding_a_height')
         if nvalid >= 2:
             res['nontrivial'].append(obs.case_hash(sc['rows'], prm, name))
         if ev is not None:
